@@ -4,4 +4,8 @@
 /* plain operator new/delete model (ledger optional, see alloc.c) */
 void* vm_new(uint64_t n);
 void vm_delete(void* p);
+/* ledger variant (models/alloc_ledger.c) */
+void vm_adopt(void* p, uint64_t n);
+int vm_live_blocks(void); int vm_is_live(void* p); uint64_t vm_block_size(void* p);
+extern uint64_t vm_cur, vm_peak; extern int vm_alloc_count, vm_fail_at, vm_errors, vm_nblk;
 #endif
